@@ -93,34 +93,47 @@ def check_rate_control(w, rep):
     verdict(rep, "C15.rate", "M = kp e1 + ki i1 + kd de1 (element-wise, with the clamped integrator)", O["M"], M, (), W, "moment command is not the PID sum of the returned terms")
 
 
-def check_position_loops2(w, rep, RULE="C15.clamp", RA="C15.API"):
+POSITION_LOOPS = (("cyecca.models.rdd2", "derive_position_control", "position_control", "p"),
+                  ("cyecca.models.rdd2_loglinear", "derive_outerloop_control", "se23_position_control", "zeta"))
+
+
+def demanded_force(w, rep, modname, fn, key, RA):
+    """Re-assembles the demanded force zB * nT of a position loop from the frame handed to SO3Quat.from_Matrix and the
+    thrust output (tolerance guards resolved to the regular side) and splits it with norm_clamp_parts.
+    -> (f, I, O, parts, mod, W) or None."""
     from .c14 import tolerance_guards
     Q = w.G("SO3Quat")
-    for modname, fn, key, zsrc in (("cyecca.models.rdd2", "derive_position_control", "position_control", "p"),
-                                   ("cyecca.models.rdd2_loglinear", "derive_outerloop_control", "se23_position_control", "zeta")):
-        mod = w.mod(modname)
-        if fn not in mod:
-            raise AnchorMissing("%s.%s" % (modname, fn))
-        W = w.where(modname, fn)
-        ok, res = guarded(w, rep, RA, "%s()" % fn, lambda: capture_calls(w, "from_Matrix", lambda: w.callf(mod[fn]), self_is=Q))
-        if not ok:
+    mod = w.mod(modname)
+    if fn not in mod:
+        raise AnchorMissing("%s.%s" % (modname, fn))
+    W = w.where(modname, fn)
+    ok, res = guarded(w, rep, RA, "%s()" % fn, lambda: capture_calls(w, "from_Matrix", lambda: w.callf(mod[fn]), self_is=Q))
+    if not ok:
+        return None
+    eqs, seen = res
+    f = eqs.get(key) if isinstance(eqs, dict) else None
+    if not isinstance(f, cm.FunctionVal) or not seen:
+        rep.fail(RA, "%s exported" % key, "no Function / frame", where=W)
+        return None
+    rep.ok(RA, "%s resolves" % key)
+    I = dict(zip(f.in_names, f.ins))
+    O = dict(zip(f.out_names, f.outs))
+    Rd = seen[-1]["arg"]
+    g = tolerance_guards(Rd)
+    g.update(tolerance_guards(O["nT"]))
+    R = assign_ites(Rd, g)
+    nT = assign_ites(O["nT"], g)
+    zB = w.it.mat_get(R, (slice(0, 3), 2))
+    v = [canon(p) for p in cm.ew(zB, nT, cm.pmul).flat()]
+    return f, I, O, norm_clamp_parts(v), mod, W
+
+
+def check_position_loops2(w, rep, RULE="C15.clamp", RA="C15.API"):
+    for modname, fn, key, zsrc in POSITION_LOOPS:
+        got = demanded_force(w, rep, modname, fn, key, RA)
+        if got is None:
             continue
-        eqs, seen = res
-        f = eqs.get(key) if isinstance(eqs, dict) else None
-        if not isinstance(f, cm.FunctionVal) or not seen:
-            rep.fail(RA, "%s exported" % key, "no Function / frame", where=W)
-            continue
-        rep.ok(RA, "%s resolves" % key)
-        I = dict(zip(f.in_names, f.ins))
-        O = dict(zip(f.out_names, f.outs))
-        Rd = seen[-1]["arg"]
-        g = tolerance_guards(Rd)
-        g.update(tolerance_guards(O["nT"]))
-        R = assign_ites(Rd, g)
-        nT = assign_ites(O["nT"], g)
-        zB = w.it.mat_get(R, (slice(0, 3), 2))
-        v = [canon(p) for p in cm.ew(zB, nT, cm.pmul).flat()]
-        parts = norm_clamp_parts(v)
+        f, I, O, parts, mod, W = got
         m_, g_ = mod.get("m"), mod.get("g")
         inst = "%s: feedback term is if_else(|u| > L, L u/|u|, u) with L = 0.3 m g" % key
         if parts is None:
@@ -245,8 +258,32 @@ def check_error_laws(w, rep):
         if ok:
             X, Xr = w.elem(Q, q), w.elem(Q, qr)
             E = w.call(w.call(Q, "product", w.call(X, "inverse"), Xr), "log")
-            want = cm.matmul(cm.matmul(w.call(E, "left_jacobian"), cm.diag(kp)), w.param(E))
-            verdict(rep, "C15.error", "so3_attitude_control: omega = J_l(e) diag(kp) e, e = log(X^-1 X_r)", om, want, (), W, "log-linear attitude law is not J_l(e) K e")
+            # Special case kp = (k, k, k): J_l(e) e = e exactly in the polynomial ring (wedge(e) e = 0), so the law is
+            # k e and can be compared with k log(X^-1 X_r) whatever series atoms the Jacobian carries (a necessary
+            # condition of the general law; decided on the two signs of q . q_r modulo |q| = |q_r| = 1).
+            k = w.sym("k", 1)
+            kkk = cm.vertcat(k, k, k)
+            ok1, om1 = guarded(w, rep, "C15.error", "so3_attitude_control call (equal gains)", lambda: f(kkk, q, qr))
+            special_ok = True
+            if ok1:
+                d0 = cm.dot(q, qr).s()
+                quats = [tuple(sym_atoms_of(q)), tuple(sym_atoms_of(qr))]
+                with with_maxdeg(30):
+                    A1 = closed(w, om1)
+                    B1 = closed(w, cm.ew(kkk, w.param(E), cm.pmul))
+                    for sgn, label in ((1, "q . q_r > 0"), (-1, "q . q_r < 0")):
+                        inst = "so3_attitude_control with equal gains k: omega = k log(X^-1 X_r) when %s" % label
+                        vd, d = decide_mat(resolve_sign(A1, d0, sgn), resolve_sign(B1, d0, sgn), quats)
+                        if vd == EQUAL:
+                            rep.ok("C15.error", inst)
+                        elif vd == DIFFERENT:
+                            special_ok = False
+                            rep.fail("C15.error", inst, "with equal gains the log-linear law must reduce to k times the rotation vector of X^-1 X_r (J_l(e) e = e): %s" % d, where=W)
+                        else:
+                            rep.incomplete("C15.error", inst, "cannot decide: %s" % d, where=W)
+            if special_ok:
+                want = cm.matmul(cm.matmul(w.call(E, "left_jacobian"), cm.diag(kp)), w.param(E))
+                verdict(rep, "C15.error", "so3_attitude_control: omega = J_l(e) diag(kp) e, e = log(X^-1 X_r)", om, want, (), W, "log-linear attitude law is not J_l(e) K e")
             zero_at_equal(w, rep, "so3_attitude_control", lambda a, b: f(kp, a, b), q, W)
     f, mod = get_fn(w, rep, "cyecca.models.rdd2_loglinear", "derive_se23_error", "se23_error")
     if f is not None:
@@ -322,6 +359,9 @@ def check_law_sign_independence(w, rep):
     quats = [tuple(sym_atoms_of(q)), tuple(sym_atoms_of(qr))]
     with with_maxdeg(30):
         for name, call, W in laws:
+            if any(o.status == "fail" and o.rule == "C15.error" and o.instance.startswith(name) for o in rep.obs):
+                rep.na("C15.error", "%s sign independence" % name, "law already reported as violated")
+                continue
             ok, vals = guarded(w, rep, "C15.error", "%s sign independence" % name, lambda: (closed(w, call(qr)), closed(w, call(cm.neg(qr)))))
             if not ok:
                 continue
